@@ -70,8 +70,12 @@ class _StepCap(trio.abc.Instrument):
                 self.world.root_scope.cancel()
 
 
+CURRENT = {"world": None}
+
+
 class World:
     def __init__(self, scenario, tape_values):
+        CURRENT["world"] = self
         self.scenario = scenario
         self.tape = Tape(tape_values, seed=scenario.get("seed", 0) ^ 0x5EED)
         self.events = []
